@@ -46,6 +46,8 @@ class _RedisConsumer(ConsumerT):
         )
         self.pause_lock = asyncio.Lock()
         self.consume_task: asyncio.Task | None = None
+        # message which is taken from redis, but isn't in the local queue yet
+        self._in_hand: tuple[RoutingKeyT, str, ParametersT] | None = None
 
     async def start(self) -> None:
         self.consume_task = asyncio.create_task(self.backgroud_consume())
@@ -61,7 +63,12 @@ class _RedisConsumer(ConsumerT):
     async def finish(self) -> None:
         if self.consume_task is not None:
             self.consume_task.cancel()
+            # wait for a fetch which is in progress: its message would stay marked as processing
+            await asyncio.wait({self.consume_task})
         rejects = []
+        if self._in_hand is not None:
+            rejects.append(self.broker.reject(self._in_hand[0]))
+            self._in_hand = None
         while self.queue.qsize() > 0:
             key, _, _ = self.queue.get_nowait()
             rejects.append(self.broker.reject(key))
@@ -75,9 +82,17 @@ class _RedisConsumer(ConsumerT):
             if self.pause_lock.locked():
                 await self.pause_lock.acquire()
                 self.pause_lock.release()
-            msg = await self.consume_or_none()
+            fetch = asyncio.ensure_future(self.consume_or_none())
+            try:
+                msg = await asyncio.shield(fetch)
+            except asyncio.CancelledError:
+                # don't abandon the fetch half-way: the message may be already taken
+                self._in_hand = await fetch
+                raise
             if msg is not None:
+                self._in_hand = msg
                 await self.queue.put(msg)
+                self._in_hand = None
             else:
                 await asyncio.sleep(self.POLLING_WAIT)
 
